@@ -16,7 +16,9 @@ RULE = (
     "and after exit), second deactivation, call after exit} on a probe f > a, replayed on a fresh world; "
     "model: a stage attached at time t sees exactly the events of calls made after t and inside the active "
     "window, a reduction publishes exactly one value (the fold of what it saw) at deactivation and never "
-    "again, a refused re-activation changes nothing; plus a subprocess per scenario for probes still "
+    "again, a refused re-activation changes nothing; the same search again in a world where an earlier probe ended "
+    "while a generator started under it is still suspended, with {advance, close, drop} of that generator as "
+    "extra operations (the ended probe's outputs never change, the probe under test is undisturbed); plus a subprocess per scenario for probes still "
     "active at interpreter exit"
 )
 ASSUMPTIONS = [
@@ -24,22 +26,40 @@ ASSUMPTIONS = [
     "only the state afterwards (clean) and the other stages' outputs",
     "what a second deactivation returns or raises is not asserted; it must publish nothing and leave the state clean",
 ]
-BOUNDS = {"quick": {"depth": 6, "stages": 2}, "thorough": {"depth": 8, "stages": 3, "merge_audit_depth": 4}}
+BOUNDS = {"quick": {"depth": 6, "stages": 2, "stale_stages": 1}, "thorough": {"depth": 8, "stages": 3, "stale_stages": 2, "merge_audit_depth": 4}}
 
 SRC = '''
 def f(x):
     a = x * 2
     return a
+
+def t(n):
+    for i in range(n):
+        v = i * 10
+        yield v
 '''
 KINDS = ["accum", "count", "max", "last", "map"]
 
 
 class World:
-    def __init__(self):
+    def __init__(self, stale=False):
         self.ns = world.make_module(SRC)
         self.f = self.ns["f"]
         self.orig = self.f.__code__
         from ptera import probing
+
+        self.stale = None
+        self.stale_outs = None
+        if stale:
+            # an earlier probe whose with-block ended while a generator started under it is still suspended
+            with probing("t > v", env={"t": self.ns["t"]}) as p1:
+                seen, cnt = [], []
+                p1["v"].subscribe(seen.append)
+                p1["v"].count().subscribe(cnt.append)
+                self.stale = self.ns["t"](4)
+                next(self.stale)
+                next(self.stale)
+            self.stale_outs = (seen, cnt)
 
         self.probe = probing("f > a", env={"f": self.f})
         self.outs = []   # one output list per stage
@@ -48,16 +68,19 @@ class World:
 
 
 class System:
-    def __init__(self, max_stages):
+    def __init__(self, max_stages, stale=False):
         self.max_stages = max_stages
+        self.stale = stale
 
-    # model: (status, stages=((kind, seen tuple),...), calls, published flags)
+    # model: (status, stages=((kind, seen tuple),...), calls, yields of the stale generator or "none")
     def initial_model(self):
-        return ("new", (), 0)
+        return ("new", (), 0, 2 if self.stale else "none")
 
     def enabled(self, m):
-        status, stages, calls = m
+        status, stages, calls, stale = m
         ops = []
+        if stale != "none":
+            ops += [("stale", "next"), ("stale", "close"), ("stale", "drop")]
         if status != "done" and len(stages) < self.max_stages:
             ops += [("stage", k) for k in KINDS]
         if status == "new":
@@ -72,27 +95,30 @@ class System:
         return ops
 
     def step_model(self, m, op):
-        status, stages, calls = m
+        status, stages, calls, stale = m
         if op[0] == "stage":
-            return (status, stages + ((op[1], ()),), calls), "ok"
+            return (status, stages + ((op[1], ()),), calls, stale), "ok"
         if op[0] == "act":
-            return ("active", stages, calls), "ok"
+            return ("active", stages, calls, stale), "ok"
         if op[0] == "react":
             return m, "refused"
+        if op[0] == "stale":
+            stale = (stale + 1 if stale < 4 else "none") if op[1] == "next" else "none"
+            return (status, stages, calls, stale), "ok"
         if op[0] == "call":
             x = calls + 1
             if status == "active":
                 stages = tuple((k, seen + (x * 2,)) for k, seen in stages)
-            return (status, stages, x), ("result", x * 2)
+            return (status, stages, x, stale), ("result", x * 2)
         if op[0] == "deact":
-            return ("done", stages, calls), "ok"
+            return ("done", stages, calls, stale), "ok"
         if op[0] == "deact2":
             return m, "ok"
         raise KeyError(op)
 
     def expected_outputs(self, m):
         """Per stage: expected output list, or None when it is not defined."""
-        status, stages, calls = m
+        status, stages, calls, stale = m
         out = []
         for k, seen in stages:
             if k == "accum":
@@ -110,8 +136,8 @@ class System:
         return out
 
     def model_key(self, m):
-        status, stages, calls = m
-        return (status, tuple((k, len(s)) for k, s in stages))
+        status, stages, calls, stale = m
+        return (status, tuple((k, len(s)) for k, s in stages), stale)
 
     def outcome_class(self, m):
         return (m[0], len(m[1]))
@@ -119,7 +145,7 @@ class System:
     # implementation
     def fresh(self):
         world.reset_context()
-        return World()
+        return World(self.stale)
 
     def apply(self, w, op):
         try:
@@ -141,6 +167,21 @@ class System:
                 return "ok"
             if op[0] == "act":
                 w.probe.__enter__()
+                return "ok"
+            if op[0] == "stale":
+                import gc
+
+                if op[1] == "next":
+                    try:
+                        next(w.stale)
+                    except StopIteration:
+                        w.stale = None
+                elif op[1] == "close":
+                    w.stale.close()
+                    w.stale = None
+                else:
+                    w.stale = None
+                    gc.collect()
                 return "ok"
             if op[0] == "react":
                 try:
@@ -186,6 +227,7 @@ class System:
             getattr(w.probe, "_activated", None),
             len(getattr(w.probe, "_observers", ())),
             tuple(len(o) for o in w.outs),
+            w.stale is not None,
         )
 
     def invariant(self, w, m):
@@ -199,6 +241,8 @@ class System:
                 continue
             if list(got) != want:
                 probs.append(f"stage {i} ({m[1][i][0]}): expected output {want!r}, observed {list(got)!r}")
+        if w.stale_outs is not None and (w.stale_outs[0], w.stale_outs[1]) != ([0, 10], [2]):
+            probs.append(f"the probe that ended before this history received or published something afterwards: {w.stale_outs!r}")
         if m[0] != "active":
             probs += world.clean_state_problems(w.f, w.orig)
             from pv.core import introspect as I
@@ -215,6 +259,11 @@ class System:
         return probs
 
     def close(self, w):
+        if w.stale is not None:
+            try:
+                w.stale.close()
+            except BaseException:
+                pass
         try:
             from pv.core import introspect as I
 
@@ -284,7 +333,9 @@ def check_atexit(part):
 
 
 def units(tier):
-    return [("bfs", h) for h in H.first_ops(System(BOUNDS[tier]["stages"]), 1)] + [("atexit",)]
+    out = [("bfs", h, False) for h in H.first_ops(System(BOUNDS[tier]["stages"]), 1)]
+    out += [("bfs", h, True) for h in H.first_ops(System(BOUNDS[tier]["stale_stages"], True), 1)]
+    return out + [("atexit",)]
 
 
 def work(unit, tier):
@@ -292,7 +343,7 @@ def work(unit, tier):
     if unit[0] == "atexit":
         check_atexit(part)
         return part
-    system = System(BOUNDS[tier]["stages"])
+    system = System(BOUNDS[tier]["stale_stages" if unit[2] else "stages"], unit[2])
     res = H.explore(system, BOUNDS[tier]["depth"], audit_depth=BOUNDS[tier].get("merge_audit_depth", 0), prefix=unit[1])
     part["cases"] = res.states
     part["steps"] = res.transitions
@@ -309,7 +360,7 @@ def work(unit, tier):
     for rep, other, op in res.audit_failures:
         part["harness_errors"].append(f"merge audit: {rep!r} and {other!r} were merged but differ after {op!r}")
     for kind, hist, detail in res.violations:
-        part["violations"].append(violation(PROP, kind, {"history": [list(o) for o in hist]}, detail, tags=["kind:" + kind]))
+        part["violations"].append(violation(PROP, kind, {"history": [list(o) for o in hist], "stale": unit[2]}, detail, tags=["kind:" + kind]))
     return part
 
 
@@ -319,7 +370,7 @@ def replay(case):
         check_atexit(part)
         bad = [v for v in part["violations"] if v["case"]["scenario"] == case["scenario"]]
         return (True, bad[0]["detail"]) if bad else (False, "completed once at exit")
-    system = System(3)
+    system = System(3, case.get("stale", False))
     hist = tuple(tuple(o) for o in case["history"])
     w, m, problem, at = H.run_history(system, hist)
     system.close(w)
